@@ -48,7 +48,8 @@ CFG = dict(
          "interceptor, or both; with and without a deadline) x handler programs of 0..5 calls over {SetHeader, SendHeader, SetTrailer, "
          "SendMsg, SendMsg rejected by the codec} with raw metadata.MD literals (mixed-case -Bin suffixes), through the stream's methods or grpc.SetHeader/SendHeader/"
          "SetTrailer, returning nil or an error, plus fixed scenarios for the three ways headers leave: handler's incoming metadata, "
-         "caller's Header()/Trailer() (unary: stats InHeader / wire list) and the wire lists vs the model; sequences of 17..26 unary calls "
+         "caller's Header()/Trailer() (unary: stats InHeader / wire list) and the wire lists vs the model; the context given to Serve plain / carrying incoming metadata (disjoint keys / the call's keys), calls that attach "
+         "nothing; metadata blocks at the 16 KiB size limit (thorough: 4 KiB .. 1 MiB); sequences of 17..26 unary calls "
          "on ONE served connection (two methods, few shared keys, some calls setting no trailer): every reply's header and trailer list "
          "judged exactly on the wire; non-trivial = distinct description hash",
     assumptions=["encoding/base64, strings.ToLower/HasSuffix, metadata.Join and Go map iteration are Go's/grpc's: modelled and validated differentially, not verified",
